@@ -16,11 +16,13 @@ SIM_FDS = (FD_TTY, FD_OUT)
 
 
 def default_attrs():
+    """Normalised attribute state: [iflag, oflag, cflag, lflag, ispeed, ospeed, cc] with
+    cc a list of 32 ints (the kernel's c_cc bytes)."""
     t = real_termios
-    cc = [b"\x00"] * 32
-    cc[t.VINTR] = b"\x03"
-    cc[t.VEOF] = b"\x04"
-    cc[t.VERASE] = b"\x7f"
+    cc = [0] * 32
+    cc[t.VINTR] = 3
+    cc[t.VEOF] = 4
+    cc[t.VERASE] = 0x7F
     cc[t.VMIN] = 1
     cc[t.VTIME] = 0
     iflag = t.ICRNL | t.IXON
@@ -52,6 +54,20 @@ class SimTTY:
                         "LANG": "C.UTF-8"}
         self.echoed = 0
         self.reply_filter = None            # optional fn(kind, data) -> data|None
+
+    def export_attrs(self):
+        """tcgetattr() view: cc entries are 1-byte ``bytes`` except VMIN/VTIME, which
+        CPython returns as ints when ICANON is off."""
+        a = self.attrs
+        cc = [bytes([v]) for v in a[6]]
+        if not a[3] & real_termios.ICANON:
+            cc[real_termios.VMIN] = a[6][real_termios.VMIN]
+            cc[real_termios.VTIME] = a[6][real_termios.VTIME]
+        return [a[0], a[1], a[2], a[3], a[4], a[5], cc]
+
+    def mark_entry(self):
+        self.entry_attrs = copy.deepcopy(self.attrs)
+        return self.entry_attrs
 
     # -- line discipline -----------------------------------------------------------
 
@@ -109,6 +125,27 @@ class SimTTY:
         return (vt.rows, vt.cols, 0, 0)
 
 
+def normalize_attrs(attrs):
+    """What the kernel would store for a tcsetattr() argument (CPython rules)."""
+    if not isinstance(attrs, list) or len(attrs) != 7:
+        raise TypeError("tcsetattr, arg 3: must be 7 element list")
+    cc = attrs[6]
+    if not isinstance(cc, list) or len(cc) != 32:
+        raise TypeError("tcsetattr: attributes[6] must be %d element list" % 32)
+    out = []
+    for x in cc:
+        if isinstance(x, bytes) and len(x) == 1:
+            out.append(x[0])
+        elif isinstance(x, int) and not isinstance(x, bool):
+            out.append(x & 0xFF)
+        else:
+            raise TypeError("tcsetattr: elements of attributes must be characters or integers")
+    for v in attrs[:6]:
+        if not isinstance(v, int):
+            raise TypeError("tcsetattr: an integer is required")
+    return [attrs[0], attrs[1], attrs[2], attrs[3], attrs[4], attrs[5], out]
+
+
 class FakeTermios:
     def __init__(self, tty):
         self._tty = tty
@@ -125,7 +162,7 @@ class FakeTermios:
         self._chk(fd)
         k = self._tty.k
         k.seam("tty.tcgetattr")
-        out = copy.deepcopy(self._tty.attrs)
+        out = self._tty.export_attrs()
         k.seam_after("tty.tcgetattr")
         return out
 
@@ -133,7 +170,8 @@ class FakeTermios:
         self._chk(fd)
         tty = self._tty
         k = tty.k
-        restoring = tty.entry_attrs is not None and attrs == tty.entry_attrs
+        norm = normalize_attrs(attrs)
+        restoring = tty.entry_attrs is not None and norm == tty.entry_attrs
         if restoring:
             # the restoring call is clean-up: never pre-empt its effect
             k.in_cleanup = True
@@ -142,9 +180,7 @@ class FakeTermios:
                 k.ctx.log("seam", "tty.tcsetattr.restore")
         else:
             k.seam("tty.tcsetattr", when)
-        if not isinstance(attrs, list) or len(attrs) != 7:
-            raise TypeError("tcsetattr, arg 3: must be 7 element list")
-        tty.attrs = copy.deepcopy(attrs)
+        tty.attrs = norm
         tty.attr_changes += 1
         if when == real_termios.TCSAFLUSH:
             tty.flushed_bytes += len(tty.inq)
@@ -235,9 +271,7 @@ class FakeOS:
             m = min(n, i)
         else:
             vmin = cc[real_termios.VMIN]
-            vmin = vmin if isinstance(vmin, int) else ord(vmin)
             vtime = cc[real_termios.VTIME]
-            vtime = vtime if isinstance(vtime, int) else ord(vtime)
             if vmin > 0:
                 need = min(vmin, n)
                 if vtime == 0:
@@ -311,7 +345,7 @@ class SimStdout:
         self.retain = retain           # partial-write remainder kept (BufferedWriter-like)
         self.buf = bytearray()
         self.sink = bytearray()        # everything delivered (also when not a tty)
-        self.write_calls = 0
+        self.write_log = []            # text of every write() call (truncated), in order
 
     # text-IO protocol
     def isatty(self):
@@ -337,6 +371,7 @@ class SimStdout:
         if not isinstance(s, str):
             raise TypeError("write() argument must be str, not %s" % type(s).__name__)
         data = s.encode("utf-8")
+        self.write_log.append(s if len(s) <= 24 else s[:24])
         f = self.k.seam("out.write", len(data))
         if f is not None:  # partial delivery
             return self._partial(f, data)
